@@ -278,13 +278,13 @@ Definition hits (k : N) (out : list rule) (a b : glyph) : list rule :=
 (* most specific kind first: glyph-glyph, glyph-class, class-glyph, class-class *)
 Definition best_hits (out : list rule) (a b : glyph) : list rule :=
   match hits 0 out a b with
-  | _ :: _ as l => l
+  | (_ :: _) as l => l
   | [] =>
       match hits 1 out a b with
-      | _ :: _ as l => l
+      | (_ :: _) as l => l
       | [] =>
           match hits 2 out a b with
-          | _ :: _ as l => l
+          | (_ :: _) as l => l
           | [] => hits 3 out a b
           end
       end
